@@ -19,6 +19,7 @@ func init() {
 			return
 		}
 		info := pk.TypesInfo
+		defs := localDefs(info, fd.Body)
 		n := 0
 		walkStack(fd.Body, func(nd ast.Node, stack []ast.Node) bool {
 			call, ok := nd.(*ast.CallExpr)
@@ -69,7 +70,7 @@ func init() {
 						continue
 					}
 					l, okl := unparen(as.Lhs[0]).(*ast.SelectorExpr)
-					r, okr := unparen(as.Rhs[0]).(*ast.SelectorExpr)
+					r, okr := defs.resolve1(info, as.Rhs[0]).(*ast.SelectorExpr)
 					if !okl || !okr || l.Sel.Name != "FileRef" || r.Sel.Name != "FileRef" {
 						continue
 					}
